@@ -548,11 +548,12 @@ def stepOpt (lv : Live) (st : List (V Val)) (l : Line) : Option (DState × Strin
         let sh (calls : Nat) (o : Option Val) : String := s!"calls={calls} " ++ (match o with | some x => showV x | none => "-")
         -- `*this ? *this : f()` / `*this ? move(*this) : f()`
         let mres : Except Err (String × List (V Val)) :=
-          if hasValue v then do
-            let x ← deref v
-            let st' ← if mv then put st k { v with val := (el.mc x).2 } else .ok st
-            .ok (sh 0 (some (if mv then (el.mc x).1 else el.cc x)), st')
-          else .ok (sh 1 alt, st)
+          (orElse v).bind fun o =>
+            match o with
+            | some x => do
+              let st' ← if mv then put st k { v with val := (el.mc x).2 } else .ok st
+              .ok (sh 0 (some (if mv then (el.mc x).1 else el.cc x)), st')
+            | none => .ok (sh 1 alt, st)
         let so' := if mv then lv.so.set k (sv.map fun x => (el.mc x).2) else lv.so
         some (fin lv mres (match sv with | some x => sh 0 (some (if mv then (el.mc x).1 else el.cc x)) | none => sh 1 alt)
           { lv with so := so' })
@@ -626,7 +627,7 @@ def stepExp (lv : Live) (st : List (V Val)) (l : Line) : Option (DState × Strin
       match st[k]?, lv.se[k]? with
       | some v, some sv =>
         let f (b : Bool) := fmtBool b ++ fmtBool b ++ fmtBool b
-        some (fin lv (.ok (f (v.idx == 0), st)) (f (match sv with | .val _ => true | .err _ => false)) lv)
+        some (fin lv (.ok (f (expHas v), st)) (f (match sv with | .val _ => true | .err _ => false)) lv)
       | _, _ => none
   | "value_or" =>
     match l.nat? "s", l.int? "v" with
@@ -636,11 +637,11 @@ def stepExp (lv : Live) (st : List (V Val)) (l : Line) : Option (DState × Strin
       | some v, some sv =>
         if !mv && T == .mo then some (fin lv (.ok ("nc", st)) "nc" lv) else
         let mres : Except Err (String × List (V Val)) :=
-          if v.idx == 0 then do
-            let x ← getAt v 0
+          if expHas v then do
+            let x ← expValueOr v (mkV T n)
             let st' ← if mv then put st k { v with val := (el.mc x).2 } else .ok st
             .ok (showV (if mv then (el.mc x).1 else el.cc x), st')
-          else .ok (showV (el.mc (mkV T n)).1, st)
+          else (expValueOr v (mkV T n)).map fun d => (showV (el.mc d).1, st)
         let (sres, se') := match sv with
           | .val x => (showV (if mv then (el.mc x).1 else el.cc x), if mv then lv.se.set k (.val (el.mc x).2) else lv.se)
           | .err _ => (showV (el.mc (mkV T n)).1, lv.se)
@@ -656,9 +657,9 @@ def stepExp (lv : Live) (st : List (V Val)) (l : Line) : Option (DState × Strin
         if !lv.copyable then some (fin lv (.ok ("nc", st)) "nc" lv) else
         let g (x : Val) : Spec.E Val := if f == "fail" then .err (mkArg E n) else .val (el.mc (bump x)).1
         let mres : Except Err (String × List (V Val)) :=
-          if v.idx == 0 then (getAt v 0).map fun x => ("calls=1 " ++ fmtE (g x), st)
-          else (getAt v 1).map fun e => ("calls=0 " ++ fmtE (.err (el.cc e)), st)     -- `U(unexpect, error())`
-        some (fin lv mres (match sv with | .val x => "calls=1 " ++ fmtE (g x) | .err e => "calls=0 " ++ fmtE (.err (el.cc e))) lv)
+          (expAndThen v (fun x => "calls=1 " ++ fmtE (g x)) (fun e => "calls=0 " ++ fmtE (.err (el.cc e)))).map   -- `U(unexpect, error())`
+            fun r => (r, st)
+        some (fin lv mres (sv.andThen (fun x => "calls=1 " ++ fmtE (g x)) (fun e => "calls=0 " ++ fmtE (.err (el.cc e)))) lv)
       | _, _ => none
     | _, _ => none
   | "or_else" =>
@@ -670,9 +671,9 @@ def stepExp (lv : Live) (st : List (V Val)) (l : Line) : Option (DState × Strin
         if !lv.copyable then some (fin lv (.ok ("nc", st)) "nc" lv) else
         let g (e : Val) : Spec.E Val := if f == "recover" then .val (mkArg T n) else .err (el.mc (bump e)).1
         let mres : Except Err (String × List (V Val)) :=
-          if v.idx == 0 then (getAt v 0).map fun x => ("calls=0 " ++ fmtE (.val (el.cc x)), st)   -- `G(in_place, **this)`
-          else (getAt v 1).map fun e => ("calls=1 " ++ fmtE (g e), st)
-        some (fin lv mres (match sv with | .val x => "calls=0 " ++ fmtE (.val (el.cc x)) | .err e => "calls=1 " ++ fmtE (g e)) lv)
+          (expOrElse v (fun x => "calls=0 " ++ fmtE (.val (el.cc x))) (fun e => "calls=1 " ++ fmtE (g e))).map    -- `G(in_place, **this)`
+            fun r => (r, st)
+        some (fin lv mres (sv.orElse (fun x => "calls=0 " ++ fmtE (.val (el.cc x))) (fun e => "calls=1 " ++ fmtE (g e))) lv)
       | _, _ => none
     | _, _ => none
   | "ecat" =>
